@@ -544,7 +544,10 @@ def r7_fit_model_forwards(ctx):
         if len(c.args) > 1:
             kws.setdefault("options", c.args[1])
     p_ = kws.get("preprocessing")
-    ctx.check(p_ is not None and R.text(p_) == "kwargs['preprocessing']", c,
+    ctx.check(p_ is not None and R.text(p_) in (
+        "kwargs['preprocessing']",
+        "kwargs.get('preprocessing', self.preprocessing)",
+        "kwargs.get('preprocessing')"), c,
               f"steps forwarded: {R.text(p_) if p_ is not None else None}",
               "fit_model does not forward the given preprocessing steps")
     o_ = kws.get("options")
@@ -580,10 +583,11 @@ def r7_fit_model_forwards(ctx):
               "(default: the remembered ones only when the keyword is "
               "absent)")
     conds = conditions_at(c)
-    ctx.check(any(a.pol and a.text == "'preprocessing' in kwargs"
-                  for a in conds) and len(conds) == 1, c,
-              "preprocessing applied iff the keyword is given",
-              "fit_model applies preprocessing under a different condition")
+    ctx.check(all(_kleene(a.node, {"'preprocessing' in kwargs": True})
+                  == a.pol for a in conds), c,
+              "preprocessing applied whenever the steps keyword is given",
+              "fit_model does not apply the given preprocessing steps on "
+              "every call that passes them")
 
 
 def r9_failed_pipeline_leaves_raw_data(ctx):
@@ -671,6 +675,127 @@ def r8_remembered_after_success(ctx):
                   "used as default for the next call")
 
 
+def _kleene(test, known):
+    """three-valued value of `test` given {atom text: bool}"""
+    if isinstance(test, ast.BoolOp):
+        vals = [_kleene(v, known) for v in test.values]
+        if isinstance(test.op, ast.And):
+            if any(v is False for v in vals):
+                return False
+            return True if all(v is True for v in vals) else None
+        if any(v is True for v in vals):
+            return True
+        return False if all(v is False for v in vals) else None
+    if isinstance(test, ast.UnaryOp) and isinstance(test.op, ast.Not):
+        v = _kleene(test.operand, known)
+        return None if v is None else (not v)
+    t = norm(test)
+    if t in known:
+        return known[t]
+    if isinstance(test, ast.Compare) and len(test.ops) == 1 and isinstance(
+            test.ops[0], ast.NotIn):
+        t2 = f"{norm(test.left)} in {norm(test.comparators[0])}"
+        if t2 in known:
+            return not known[t2]
+    return None
+
+
+def r10_settings_describe_the_data(ctx):
+    """The preprocessing settings stored in fit_properties describe the
+    columns: fit_model copies every keyword into fit_properties, so a given
+    `preprocessing` or `preprocessing_options` keyword must have gone
+    through apply_preprocessing (with that very value) before it is
+    stored - otherwise results are shown for a pipeline that never ran and
+    the skip test of a later apply_preprocessing call sees 'unchanged'."""
+    ind = ctx.repo.mod("indent")
+    fn = ind.func("Indentation.fit_model")
+    ctx.analysed(fn)
+    from ..astutil import bound_args
+    R = Resolver(fn)
+    apf = ind.func("Indentation.apply_preprocessing")
+    # the generic keyword loop
+    loops = []
+    for i, st in enumerate(fn.body):
+        if isinstance(st, ast.For) and "kwargs" in norm(st.iter):
+            stores = [a for a in ast.walk(st) if isinstance(a, ast.Assign)
+                      and isinstance(a.targets[0], ast.Subscript)
+                      and norm(a.targets[0].value) in ("self.fit_properties",
+                                                       "fp")]
+            if stores:
+                loops.append((i, st, stores))
+    if not loops:
+        raise Undecided("fit_model: the loop copying the keywords into "
+                        "fit_properties was not found")
+    li, lp, stores = loops[0]
+    kvar = norm(lp.target) if isinstance(lp.target, ast.Name) else None
+    for key, param in (("preprocessing", "preprocessing"),
+                       ("preprocessing_options", "options")):
+        # is the key excluded from the loop?
+        excluded = False
+        for a in stores:
+            for c in conditions_at(a, stop=lp):
+                v = _kleene(c.node, {f"{kvar} == '{key}'": True,
+                                     f"{kvar} != '{key}'": False})
+                if v is None and isinstance(c.node, ast.Compare) and \
+                        isinstance(c.node.ops[0], (ast.In, ast.NotIn)) and \
+                        norm(c.node.left) == kvar:
+                    from ..astutil import literal
+                    try:
+                        lit = literal(c.node.comparators[0])
+                    except Exception:
+                        lit = None
+                    if isinstance(lit, (list, tuple, set)):
+                        v = (key in lit) == isinstance(c.node.ops[0], ast.In)
+                if v is not None and v != c.pol:
+                    excluded = True
+        if excluded:
+            ctx.ok(lp, f"'{key}' is not copied by the keyword loop")
+            continue
+        atom = f"'{key}' in kwargs"
+        good = None
+        seen = []
+        for st in fn.body[:li]:
+            for c in [x for x in ast.walk(st) if isinstance(x, ast.Call)
+                      and call_name(x) == "self.apply_preprocessing"]:
+                conds = conditions_at(c)
+                implied = all(_kleene(a.node, {atom: True}) == a.pol
+                              for a in conds)
+                ba = bound_args(c, apf)
+                arg = ba.get(param) if ba else None
+                if arg is None:
+                    seen.append((c, "value not forwarded"))
+                    continue
+                vals = [arg]
+                if isinstance(arg, ast.Name) and hasattr(arg, "_parent"):
+                    vs = R.reaching_values(arg)
+                    if vs:
+                        vals = vs
+                forwards = False
+                for v in vals:
+                    t = R.text(v)
+                    if t == f"kwargs['{key}']" or t.startswith(
+                            f"kwargs.get('{key}'") or t.startswith(
+                            f"kwargs['{key}'] if '{key}' in kwargs"):
+                        forwards = True
+                if implied and forwards:
+                    good = c
+                else:
+                    seen.append((c, ("not applied whenever the keyword is "
+                                     "given" if not implied else
+                                     "another value is applied")))
+        ctx.check(good is not None, lp,
+                  f"keyword '{key}' is applied to the data before it is "
+                  "stored",
+                  f"fit_model stores a given `{key}` in fit_properties "
+                  "without running the pipeline with it ("
+                  + ("; ".join(f"line {c.lineno}: {why}" for c, why in seen)
+                     or "no apply_preprocessing call before the loop")
+                  + "): the fit is computed from columns of the previous "
+                  "pipeline while the stored settings (and the hash) claim "
+                  "the new one, and a later apply_preprocessing with the "
+                  "stored settings is skipped as 'unchanged'")
+
+
 RULES = [
     ("C06-R1", "preproc.apply restarts from raw data on every path",
      r1_restart_from_raw),
@@ -689,4 +814,6 @@ RULES = [
      "data", r9_failed_pipeline_leaves_raw_data),
     ("C06-R8", "the remembered pipeline attributes are assigned only after "
      "the pipeline ran", r8_remembered_after_success),
+    ("C06-R10", "fit_model applies a given steps/options keyword before "
+     "storing it", r10_settings_describe_the_data),
 ]
